@@ -1,5 +1,6 @@
 (* C07 — check, compile and run agree on which sources are valid. *)
-From Lace Require Import Word Asm Cli CliProofs.
+From Coq Require Import List.
+From Lace Require Import Word Asm Cli CliProofs Watch.
 From Lace Require Examples.
 Open Scope N_scope.
 
@@ -19,3 +20,18 @@ Proof.
   split; [|exact Examples.ex_rejected]. pose proof Examples.ex_assembles as H.
   destruct (assemble false nil Examples.ex_src_ok) as [[im| |] sym]; try contradiction. apply H.
 Qed.
+
+(** `lace watch` (Watch.v: the handler assembles the current contents with the symbol table as the
+    previous re-check left it, prints the verdict, resets).  Every re-check — whatever the earlier
+    versions of the file were — gives exactly the verdict of `lace check` on that version alone. *)
+Theorem C07_watch : forall feat versions, watch feat nil versions = List.map (check_exit feat) versions.
+Proof. exact watch_is_check. Qed.
+Print Assumptions C07_watch.
+
+(** Non-vacuity: a version that fails after recording a label, then one that only refers to that
+    label (rejected, as by `check`); a handler that returned early on the failure, skipping the
+    reset, would accept it. *)
+Example C07_watch_nonvacuous :
+  watch false nil (ex_w1 :: ex_w2 :: ex_w1 :: nil) = 1 :: 1 :: 1 :: nil /\
+  watch_early_return false nil (ex_w1 :: ex_w2 :: nil) = 1 :: 0 :: nil.
+Proof. split; [exact (proj1 ex_watch)|exact early_return_differs]. Qed.
